@@ -34,7 +34,9 @@ Inductive mkind :=
 Inductive rkind :=
 | RAuto       (* decorated with provide_context_if_needed: blocks, get_block, [], the getters, has_*, repr, == *)
 | RPlain      (* no decorator: len, nBytes, copy *)
-| REq.        (* ==: evaluates .blocks of both operands (each providing its own context when outside one), then compares *)
+| REq         (* ==: evaluates .blocks of both operands (each providing its own context when outside one), then compares *)
+| REqBad.     (* == with a right operand whose file cannot be opened: this object's .blocks first (its own implicit context
+                 when outside one, opened and closed again), then the other operand's raises — the comparison raises *)
 
 Inductive acall :=
 | AllowWrite
@@ -90,6 +92,7 @@ Definition a_step (s : astate) (c : acall) : bool * astate :=
   | Reader RPlain => (false, s)
   | Reader REq =>                                (* ==: both operands' .blocks first — an implicit context when outside *)
       if x_inside s then (false, s) else implicit s
+  | Reader REqBad => (true, snd (if x_inside s then (false, s) else implicit s))
   | Clobber => (false, mkAS (x_mode s) (x_inside s) (x_handle s) (x_disk s) (g_allowed s) (g_wctx s) false)
   | Restore => (false, mkAS (x_mode s) (x_inside s) (x_handle s) (x_disk s) (g_allowed s) (g_wctx s) true)
   | CopySwitch => (false, mkAS RB false HNone (x_disk s) false false (x_valid s))
